@@ -83,7 +83,7 @@ def op_integrate(a, dim, regions=None, bare=False, out=1):
     if regions is not None:
         kw["regions"] = [[str(x), str(y)] for x, y in regions]
         if bare:
-            kw["bare_pair"] = True
+            kw["bare_pair"] = bare if isinstance(bare, str) else "tuple"     # container of the bare pair (ImplStore only)
     return {"op": "proc", "f": "integrate", "obj": a["id"], "out": out, "kw": kw}
 
 
